@@ -1235,6 +1235,11 @@ CASES = [
       }""", """      total_size = std::accumulate(
         arg.begin(), arg.end(), total_size, [&conditional_arg_size_cache](size_t acc, Key const& elem)
         { return acc + Codec<Key>::compute_encoded_size(conditional_arg_size_cache, elem) + sizeof(char); });"""), ("std/Set.h", "#include <set>\n", "#include <numeric>\n#include <set>\n")]),
+ dict(name="c13-ctor-part1-not-initialised-when-cut", ids=["C13"], rule="C13.R5b", subs=[("backend/TimestampFormatter.h", "      _strftime_part_1.init(format_part_1, _timestamp_timezone);", ";")]),
+ dict(name="c13-ctor-part2-flag-false", ids=["C13"], rule="C13.R5b", subs=[("backend/TimestampFormatter.h", "        _has_format_part_2 = true;", "        _has_format_part_2 = false;")]),
+ dict(name="c13-ctor-part2-on-the-empty-outcome", ids=["C13"], rule="C13.R5b", subs=[("backend/TimestampFormatter.h", "      if (!format_part_2.empty())", "      if (format_part_2.empty())")]),
+ dict(name="c13-ctor-part1-cut-from-1", ids=["C13"], rule="C13.R5b", subs=[("backend/TimestampFormatter.h", "_time_format.substr(0, specifier_begin);", "_time_format.substr(1, specifier_begin);")]),
+ dict(name="c13-ctor-arms-swapped", ids=["C13"], rule="C13.R5b", subs=[("backend/TimestampFormatter.h", "    if (specifier_begin == std::string::npos)\n    {\n      // If no additional", "    if (specifier_begin != std::string::npos)\n    {\n      // If no additional")]),
  dict(name="c06-prefix-removed-logger-sinks-not-collected", ids=["C06"], rule="C06.R4c", subs=[(BW, """        for (std::shared_ptr<Sink> const& sink : logger->sinks)
         {
           Sink* logger_sink_ptr = sink.get();""", """        if (logger->is_valid_logger())
